@@ -198,6 +198,9 @@ pub fn run_outcome(ctx: &Ctx) -> (&'static str, Outcome) {
             "C01" | "C02" => {
                 if r < 60 { Regime::Clean } else if r < 68 { Regime::Immediate } else if r < 76 { Regime::Unrestricted } else if r < 84 { Regime::CausalNoPropFirst } else if r < 92 { Regime::Roster } else { Regime::RotateRace }
             }
+            "C20" => {
+                if r < 40 { Regime::Clean } else if r < 48 { Regime::Immediate } else if r < 58 { Regime::Roster } else if r < 66 { Regime::Unrestricted } else if r < 72 { Regime::CausalNoPropFirst } else if r < 80 { Regime::RotateRace } else { Regime::Restart }
+            }
             _ => {
                 if r < 40 { Regime::Clean } else if r < 52 { Regime::Immediate } else if r < 66 { Regime::Roster } else if r < 76 { Regime::Unrestricted } else if r < 84 { Regime::CausalNoPropFirst } else if r < 92 { Regime::RotateRace } else { Regime::Restart }
             }
@@ -209,6 +212,15 @@ pub fn run_outcome(ctx: &Ctx) -> (&'static str, Outcome) {
         }
         if prop == "C20" {
             sim.retention = *rng.pick(&[0usize, 1, 2, 3, 4, 5, 5, 6]);
+            // every third history starts after 6..12 linear commits: epochs with two digits, a
+            // full snapshot queue from the start, and (in the Restart regime) queues re-read from
+            // storage that hold epochs 9 and 10 together
+            if i % 3 == 0 {
+                sim.warmup_commits = rng.range(6, 12);
+            }
+        }
+        if matches!(prop, "C07" | "C08") && i % 7 == 0 {
+            sim.warmup_commits = rng.range(6, 11);
         }
         if prop == "C18" {
             sim.w_msg = 40;
